@@ -839,7 +839,62 @@ func mkCrowded() (*core.SuObject, map[int]core.Value) {
 	return ob, want
 }
 
+// lazyRecords: a record that is still backed by its database row (not yet
+// unpacked) nested in an object. Equal values must hash equally whatever the
+// internal state, and a hash must not change by merely reading the value.
+func lazyRecords(c *lib.Ctx) {
+	n := 0
+	for nf := 0; nf <= 3; nf++ {
+		for pos := 0; pos < 3; pos++ { // first list member, second list member, named member
+			n++
+			cs := tcase{Kind: "lazy-record", A: fmt.Sprintf("row-backed record with %d fields", nf), B: fmt.Sprintf("position %d", pos)}
+			if e := lib.Try(func() {
+				cols := []string{"a", "b", "c"}[:nf]
+				rb := core.RecordBuilder{}
+				plain := &core.SuObject{}
+				for i, col := range cols {
+					rb.Add(core.SuStr(fmt.Sprint(i)))
+					plain.Set(core.SuStr(col), core.SuStr(fmt.Sprint(i)))
+				}
+				row := core.Row{core.DbRec{Record: rb.Build()}}
+				hdr := core.NewHeader([][]string{cols}, cols)
+				lazy := core.SuRecordFromRow(row, hdr, "", nil)
+				wrap := func(v core.Value) *core.SuObject {
+					ob := &core.SuObject{}
+					switch pos {
+					case 0:
+						ob.Add(v)
+					case 1:
+						ob.Add(core.True)
+						ob.Add(v)
+					default:
+						ob.Set(core.SuStr("m"), v)
+					}
+					return ob
+				}
+				outer, ref := wrap(lazy), wrap(core.SuRecordFromObject(plain))
+				h1, hr := outer.Hash(), ref.Hash()
+				eq := outer.Equal(ref) && ref.Equal(outer) // (unpacks the row)
+				h2 := outer.Hash()
+				if !eq {
+					c.Fail("", cs, "an object holding a record read from a row is not Equal to the same object holding the equal in-memory record")
+				} else if h1 != hr {
+					c.Fail("", cs, "equal values hash differently: object holding a row-backed record %d, holding the equal in-memory record %d", h1, hr)
+				}
+				if h1 != h2 {
+					c.Fail("", cs, "the hash of an object holding a row-backed record changed from %d to %d by comparing it (no modification)", h1, h2)
+				}
+			}); e != nil {
+				c.Fail("", cs, "panicked: %s", lib.PanicText(e))
+			}
+		}
+	}
+	c.Eval(n)
+	c.Set("lazy_record_cases", n)
+}
+
 func run(c *lib.Ctx) {
+	lazyRecords(c)
 	buildAlphabet(c)
 	n := len(alpha)
 	o := observe(c)
@@ -902,6 +957,10 @@ func replay(c *lib.Ctx, raw json.RawMessage) {
 	var tc tcase
 	if err := json.Unmarshal(raw, &tc); err != nil {
 		lib.Infra("bad case: %v", err)
+	}
+	if tc.Kind == "lazy-record" {
+		lazyRecords(c) // the whole (12 case) family
+		return
 	}
 	c.Tier = "thorough"
 	buildAlphabet(c)
